@@ -140,6 +140,9 @@ def copyfile(obj, mkdirs=False):
         fp = obj.location
     else:
         fp = existent_fp = obj.location + "#new"
+        # a leftover of an interrupted merge must not leak into the new entry
+        # (the data transfer neither truncates nor refuses to follow a symlink)
+        unlink_if_exists(fp)
 
     if fs.isreg(obj):
         obj.data.transfer_to_path(fp)
